@@ -31,7 +31,7 @@ BOUND = ("every class of sparseSpACE/Function.py (33 classes, 1-4 parameter choi
 RULE = (BOUND + "; a case is one (configuration, history, seed) or one (configuration, box); non-trivial = the history contains at least one "
         "evaluation / the box has positive volume. Tolerances: values rel 1e-11 + abs 1e-13 (scalar and numpy code round differently); "
         "analytic integrals |analytic - Q| <= 1e-8 * Q(|f|) + 10 * |Q_fine - Q_coarse|, cases whose oracle does not converge to 1e-7 are skipped and "
-        "noted; integrals that the library itself computes with scipy dblquad/tplquad: 1e-6 * Q(|f|)")
+        "noted; integrals that the library itself computes with scipy dblquad/tplquad: 5e-3 * Q(|f|)")
 
 CLAUSES = {
     "B.eval.shape": "eval(point) has exactly output_length() entries (the declared output length is the real one)",
@@ -43,7 +43,7 @@ CLAUSES = {
     "B.count.distinct": "while caching is on get_f_dict_size() == number of distinct points passed to __call__ since the last reset; == 0 right after reset_dictionary()",
     "B.int.returns": "getAnalyticSolutionIntegral(start, end) returns normally a number/array (not None) for a box in the domain",
     "B.int.analytic": "closed-form getAnalyticSolutionIntegral(start, end) == Gauss-Legendre quadrature of eval over the box",
-    "B.int.numeric": "scipy-based getAnalyticSolutionIntegral (base-class default, FunctionUQ*, FunctionUQNormal*: weighted with the truncated normal density) == own quadrature, rel 1e-6",
+    "B.int.numeric": "scipy-based getAnalyticSolutionIntegral (base-class default, FunctionUQ*, FunctionUQNormal*: weighted with the truncated normal density) == own quadrature, rel 5e-3 (the library value is itself an adaptive scipy quadrature, partly across a jump)",
 }
 
 SITE_CALL = "sparseSpACE.Function:Function.__call__"
@@ -521,7 +521,10 @@ def run_int(ctx, cfg, start, end):
         return
     val = np.atleast_1d(np.asarray(val, dtype=float)).reshape(-1)
     clause = "B.int.analytic" if spec["mode"] == "analytic" else "B.int.numeric"
-    rel = 1e-8 if spec["mode"] == "analytic" else 1e-6
+    # integrals that the library itself computes by adaptive scipy quadrature (dblquad/tplquad, some across a jump of the integrand) are only
+    # as accurate as scipy's default tolerances allow; the property promises agreement with a numerically computed integral, so only a
+    # gross disagreement (5e-3 relative) is a violation there.  Closed-form integrals are held to 1e-8.
+    rel = 1e-8 if spec["mode"] == "analytic" else 5e-3
     tol = rel * scale + 10.0 * err + 1e-300
     # a scalar result is accepted for a vector-valued function when it equals every component (GenzDiscontinious2 returns 0.0 for empty boxes)
     ok = (val.shape == q.shape or val.shape == (1,)) and bool(np.all(np.abs(val - q) <= tol))
